@@ -24,6 +24,21 @@ FLOORS = (20, 8)
 KNOWN_KEY = 'arena:cache-limit:concurrent-release'
 
 
+def _external_kill(r):
+    """SIGKILL cannot come from the code under test (no OOM here): another job on the shared box killed the process."""
+    return r.signal == 9 and not r.san and not r.of('violation') and not (r.stalled or r.timed_out)
+
+
+def _retry_killed(ctx, runner):
+    r = runner()
+    if _external_kill(r):
+        ctx.add_cov('rerun_after_external_sigkill', 1)
+        r = runner()
+        if _external_kill(r):          # twice: machinery trouble, never a verdict
+            r.signal = None; r.rc = 2
+    return r
+
+
 def _exe(ctx, flavour):
     return ctx.harness('c27_arena', flavour)
 
@@ -70,7 +85,7 @@ def run(ctx):
 
     def one(j):
         what = '%s/%s %s' % (j['flavour'], j['kind'], ' '.join(str(c) for c in j['cmd'][1:]))
-        runner = lambda: ctx.run([str(c) for c in j['cmd']], timeout=3600 if thorough else 900, stall_s=180, tag='%s-%s-%d' % (j['kind'], j['flavour'], id(j)))
+        runner = lambda: _retry_killed(ctx, lambda: ctx.run([str(c) for c in j['cmd']], timeout=3600 if thorough else 900, stall_s=180, tag='%s-%s-%d' % (j['kind'], j['flavour'], id(j))))
         if j.get('realfree'):      # usually dies of the known ASan finding: no summary expected
             r = runner()
             return j, r, ctx.absorb(r, what, expect_objs=False)
